@@ -14,23 +14,25 @@ namespace {
 struct Verdict { bool violated = false; std::string cls, site, detail; };
 
 static int null_sink(const void *, size_t, void *) { return 0; }
+static int hash_sink(const void *b, size_t n, void *key) { uint64_t *h = (uint64_t *)key; *h = fnv1a(b, n, *h); if(getenv("SIM_C04_DUMP")) { fwrite(b, 1, n, stderr); } return 0; }
 
 struct LeakInfo { size_t blocks = 0, bytes = 0; uintptr_t site = 0; };
 static void leak_cb(void *p, size_t sz, int, void *key) { LeakInfo *li = (LeakInfo *)key; li->blocks++; li->bytes += sz; if(!li->site) li->site = sim_alloc_site_of(p); }
 static std::string hexs(uintptr_t v) { char b[32]; snprintf(b, sizeof b, "+0x%lx", (unsigned long)v); return b; }
 
 // print, validate, re-encode x5, free; ledger must be empty afterwards
-static void post_ops(asn_TYPE_descriptor_t *td, void *st, Syntax sy, Verdict &v) {
+static void post_ops(asn_TYPE_descriptor_t *td, void *st, Syntax sy, Verdict &v, uint64_t *obs) {
+    uint64_t hz = 0xcbf29ce484222325ULL; if(!obs) obs = &hz;
     if(st) {
         int rc = 0;
-        if(!libcall([&] { rc = td->op->print_struct(td, st, 1, null_sink, 0); })) { v.violated = true; v.cls = "abort"; v.site = "print:" + abort_site(); v.detail = "assertion while printing the decoded structure"; }
+        if(!libcall([&] { rc = td->op->print_struct(td, st, 1, hash_sink, obs); })) { v.violated = true; v.cls = "abort"; v.site = "print:" + abort_site(); v.detail = "assertion while printing the decoded structure"; }
         char eb[128]; size_t el = sizeof eb;
         if(!v.violated && !libcall([&] { rc = asn_check_constraints(td, st, eb, &el); })) { v.violated = true; v.cls = "abort"; v.site = "check:" + abort_site(); v.detail = "assertion in asn_check_constraints"; }
         static const Syntax encs[] = {SY_DER, SY_OER, SY_UPER, SY_XER, SY_CXER};
         for(Syntax es : encs) {
             if(v.violated) break;
             asn_enc_rval_t er;
-            if(!libcall([&] { er = asn_encode(0, syntax_ats(es), td, st, null_sink, 0); })) { v.violated = true; v.cls = "abort"; v.site = std::string("encode-") + syntax_name(es) + ":" + abort_site(); v.detail = "assertion while re-encoding the decoded structure"; }
+            if(!libcall([&] { er = asn_encode(0, syntax_ats(es), td, st, hash_sink, obs); *obs = fnv1a(&er.encoded, sizeof er.encoded, *obs); })) { v.violated = true; v.cls = "abort"; v.site = std::string("encode-") + syntax_name(es) + ":" + abort_site(); v.detail = "assertion while re-encoding the decoded structure"; }
         }
         if(v.violated) { sim_alloc_free_all_live(); return; }
         if(!libcall([&] { ASN_STRUCT_FREE(*td, st); })) { v.violated = true; v.cls = "abort"; v.site = "free:" + abort_site(); v.detail = "assertion in ASN_STRUCT_FREE"; sim_alloc_free_all_live(); return; }
@@ -43,7 +45,7 @@ static void post_ops(asn_TYPE_descriptor_t *td, void *st, Syntax sy, Verdict &v)
 }
 
 // ops: deliver N | deliver rest | corrupt off=<o> xor=<b> | uper skip=<s> unused=<u>
-static Verdict exec_plan(asn_TYPE_descriptor_t *td, Syntax sy, Bytes S, const std::vector<Op> &ops, int *last_rc, size_t *total_consumed) {
+static Verdict exec_plan(asn_TYPE_descriptor_t *td, Syntax sy, Bytes S, const std::vector<Op> &ops, int *last_rc, size_t *total_consumed, uint64_t *obs = nullptr) {
     Verdict v;
     sim_alloc_reset();
     void *st = nullptr;
@@ -93,7 +95,8 @@ static Verdict exec_plan(asn_TYPE_descriptor_t *td, Syntax sy, Bytes S, const st
     if(last_rc) *last_rc = code;
     if(total_consumed) *total_consumed = off;
     if(v.violated) { sim_alloc_free_all_live(); return v; }
-    post_ops(td, st, sy, v);
+    if(obs) { *obs = fnv1a(&code, sizeof code, *obs); *obs = fnv1a(&off, sizeof off, *obs); }
+    post_ops(td, st, sy, v, obs);
     return v;
 }
 
@@ -153,7 +156,20 @@ static void c04_run(uint64_t seed, uint64_t index, bool thorough) {
             status_head(hs); status_ops(os);
             plan_dump_maybe(hs + os);
             int rc = 0; size_t cons = 0;
-            Verdict v = exec_plan(td, sy, D, ops, &rc, &cons);
+            // everything observable (codes, consumed, print, re-encodings) must not depend on what fresh heap memory contains:
+            // the plan runs twice, with library allocations pre-filled with two different patterns
+            uint64_t oa = 0xcbf29ce484222325ULL, ob = 0xcbf29ce484222325ULL;
+            sim_alloc_fill(1, 0xA5);
+            Verdict v = exec_plan(td, sy, D, ops, &rc, &cons, &oa);
+            if(!v.violated) {
+                sim_alloc_fill(1, 0x3C);
+                Verdict v2 = exec_plan(td, sy, D, ops, nullptr, nullptr, &ob);
+                if(v2.violated) v = v2;
+                else if(oa != ob) { v.violated = true; v.cls = "uninitialised-memory-observable"; v.site = std::string(syntax_name(sy)) + "/" + kind_name(kind_of(td));
+                    v.detail = "return codes / print / re-encodings of the decoded structure change with the contents of freshly allocated memory"; }
+                G.add("c04.decodes");
+            }
+            sim_alloc_fill(0, 0);
             G.add("c04.decodes");
             G.add(std::string("c04.rc.") + rc_name(rc));
             G.add(std::string("c04.syntax.") + syntax_name(sy));
@@ -169,7 +185,17 @@ static ReplayResult c04_replay(const Plan &p) {
     asn_TYPE_descriptor_t *td = pdu_by_name(p.get("type"));
     Syntax sy; Bytes S;
     if(!td || !syntax_from_name(p.get("syntax"), sy) || !from_hex(p.get("stream"), S)) { rr.skipped = true; rr.detail = "unusable plan"; return rr; }
-    Verdict v = exec_plan(td, sy, S, p.ops, nullptr, nullptr);
+    uint64_t oa = 0xcbf29ce484222325ULL, ob = 0xcbf29ce484222325ULL;
+    sim_alloc_fill(1, 0xA5);
+    Verdict v = exec_plan(td, sy, S, p.ops, nullptr, nullptr, &oa);
+    if(!v.violated) {
+        sim_alloc_fill(1, 0x3C);
+        Verdict v2 = exec_plan(td, sy, S, p.ops, nullptr, nullptr, &ob);
+        if(v2.violated) v = v2;
+        else if(oa != ob) { v.violated = true; v.cls = "uninitialised-memory-observable"; v.site = std::string(syntax_name(sy)) + "/" + kind_name(kind_of(td));
+            v.detail = "return codes / print / re-encodings of the decoded structure change with the contents of freshly allocated memory"; }
+    }
+    sim_alloc_fill(0, 0);
     rr.violated = v.violated;
     if(v.violated) { rr.sig = mk_sig(v); rr.detail = v.detail; }
     return rr;
